@@ -415,7 +415,7 @@ Section Helpers.
   Lemma maybe_commit_cf r r' b : maybe_commit r = Ok (r', b) -> cf ty r r'.
   Proof.
     unfold maybe_commit. intros H. inv_bind H. destruct x as [l' b1]. destruct b1.
-    - destruct (get_pr r (r_id r)); [|discriminate]. inversion H; subst; clear H. cf_solve.
+    - destruct (get_pr r (r_id r)); inversion H; subst; clear H; cf_solve.
     - inversion H; subst; clear H. cf_solve.
   Qed.
 
@@ -2900,4 +2900,70 @@ Proof.
   eapply transfer_expires_trace; try eassumption.
   - apply B; auto. left. apply is_leader_state. exact Hl.
   - congruence.
+Qed.
+
+(* ------------------------------------------------------------------ *)
+(* Construction: RawNode::new yields a follower with a non-zero id, no pending transfer
+   and no MsgTimeoutNow queued; so VI holds initially and all the trace theorems apply to
+   every execution from boot. *)
+Lemma load_state_sv r hs r' : load_state r hs = Ok r' ->
+  r_id r' = r_id r /\ r_state r' = r_state r.
+Proof.
+  unfold load_state. intros H. match type of H with (if ?c then _ else _) = _ => destruct c end;
+    [discriminate|]. inversion H; subst. split; reflexivity.
+Qed.
+
+Theorem rn_new_init c st sa d n :
+  rn_new c st sa d = Ok (inr n) ->
+  r_id (rn_raft n) = c_id c /\ c_id c <> 0 /\ r_state (rn_raft n) = Follower /\
+  r_lead_transferee (rn_raft n) = None /\
+  sel MsgTimeoutNow (r_msgs (rn_raft n)) = [].
+Proof.
+  intros H. unfold rn_new in H. destruct (c_id c =? 0) eqn:Eid; [discriminate|].
+  apply N.eqb_neq in Eid. inv_bind H. destruct x as [e|r]; [discriminate|].
+  inversion H; subst; clear H. cbn [rn_raft].
+  unfold raft_new in Hx. destruct (negb (cfg_validate c)); [discriminate|].
+  cbn zeta in Hx. inv_bind Hx.
+  match type of Hx with match ?d with _ => _ end = _ => destruct d as [[c' ids']|] end;
+    [|discriminate].
+  inv_bind Hx. destruct x0 as [r2 new_cs].
+  match type of Hx with (if ?c then _ else _) = _ => destruct c end; [discriminate|].
+  inv_bind Hx. inv_bind Hx. inv_bind Hx. inv_bind Hx. inversion Hx; subst; clear Hx.
+  (* r2: post_conf_change on a follower only sets [promotable] *)
+  apply post_conf_change_shape_tn in Hx1.
+  destruct Hx1 as [_ [[-> _]|(K & _)]]; [|discriminate K].
+  assert (H3 : r_id x0 = c_id c /\ r_state x0 = Follower /\ sel MsgTimeoutNow (r_msgs x0) = []).
+  { match type of Hx2 with (if ?c then _ else _) = _ => destruct c end.
+    - inversion Hx2; subst. repeat split.
+    - pose proof (load_state_sv _ _ _ Hx2) as [A B]. apply load_state_quiet in Hx2.
+      destruct Hx2 as (M & _). rewrite A, B, M. repeat split. }
+  destruct H3 as (A3 & B3 & C3).
+  assert (H4 : r_id x1 = c_id c /\ sel MsgTimeoutNow (r_msgs x1) = []).
+  { match type of Hx3 with (if ?c then _ else _) = _ => destruct c end.
+    - apply commit_apply_internal_cf in Hx3. destruct Hx3 as [M K]. apply ctl_fields in K.
+      destruct K as (_ & _ & _ & _ & _ & _ & K7 & _). split; congruence.
+    - inversion Hx3; subst. auto. }
+  destruct H4 as (A4 & C4).
+  pose proof (become_follower_clears _ _ _ _ Hx4) as (L & _ & S).
+  pose proof (become_follower_msgs_log _ _ _ _ Hx4) as (M & _).
+  apply become_follower_vip in Hx4. destruct Hx4 as [I _].
+  repeat split; try assumption; congruence.
+Qed.
+
+Theorem transfer_expires_from_boot c st sa d is0 is n0 n n' :
+  rn_new c st sa d = Ok (inr n0) ->
+  rn_run n0 is0 = Ok n ->
+  is_leader (rn_raft n) = true ->
+  rn_run n is = Ok n' ->
+  Forall (benign (c_id c)) is ->
+  0 < count_ticks is ->
+  r_election_timeout (rn_raft n) <= r_election_elapsed (rn_raft n) + count_ticks is ->
+  r_lead_transferee (rn_raft n') = None.
+Proof.
+  intros H0 H1 Hl H2 Hb Hp Hk. apply rn_new_init in H0. destruct H0 as (A & B & C0 & _).
+  pose proof (rn_run_vip _ _ _ H1) as [I _].
+  apply (transfer_expires_from_any_start is0 is n0 n n'); try assumption.
+  - congruence.
+  - apply VI_not_lc; rewrite C0; discriminate.
+  - rewrite I, A. exact Hb.
 Qed.
